@@ -50,7 +50,7 @@ class Gen:
         r = self.rnd
         if d <= 0:
             return self.leaf(names)
-        k = r.choice(["leaf", "bin", "bin", "bin", "pre", "and", "array", "tuple", "at", "at", "tacc", "if", "if", "block", "ifset", "match"])
+        k = r.choice(["leaf", "bin", "bin", "bin", "pre", "and", "array", "tuple", "at", "at", "tacc", "if", "if", "block", "ifset", "match", "slice", "repeat"])
         sub = lambda: self.expr(names, d - 1)
         if k == "leaf":
             return self.leaf(names)
@@ -70,6 +70,10 @@ class Gen:
             e = ("tacc", sub(), r.randint(0, 2))
         elif k == "if":
             e = ("if", sub(), ("block", self.stmts(list(names), d - 1, r.randint(1, 2))), ("block", self.stmts(list(names), d - 1, r.randint(1, 2))) if r.random() < 0.7 else None)
+        elif k == "slice":
+            e = ("slice", sub(), sub() if r.random() < 0.6 else None, sub() if r.random() < 0.5 else None, sub() if r.random() < 0.4 else None)
+        elif k == "repeat":
+            e = ("repeat", sub(), sub())
         elif k == "ifset":
             x = r.choice(["x", "y", "pi"])
             e = ("ifset", x, r.choice(SET_TYPES), sub(), ("block", self.stmts(list(names) + [x], d - 1, r.randint(1, 2))),
@@ -109,6 +113,12 @@ class Gen:
         elif k == "if":
             if not has_var(e[1]):
                 e = (k, ("bin", "eq", self.leaf(names, True), e[1]), e[2], e[3])
+        elif k == "slice":
+            if not has_var(e[1]):
+                e = (k, self.leaf(names, True)) + e[2:]
+        elif k == "repeat":
+            if not has_var(e[2]):
+                e = (k, e[1], self.leaf(names, True))
         elif k == "ifset":
             if not has_var(e[3]):
                 e = e[:3] + (self.leaf(names, True),) + e[4:]
@@ -190,7 +200,10 @@ class Gen:
             lit = ("s", r.choice(["", "a", "żó"]))
             if d <= 0:
                 return var_or(lit)
-            k = r.choice(["v", "add", "at", "tacc", "if"])
+            k = r.choice(["v", "add", "at", "tacc", "if", "slice"])
+            if k == "slice":
+                return self.fix(("slice", sub(STR), sub(INT) if r.random() < 0.6 else None, sub(INT) if r.random() < 0.5 else None,
+                                 sub(INT) if r.random() < 0.4 else None), [n for n, _ in env])
             if k == "add":
                 return self.fix(("bin", "add", sub(STR), sub(STR)), [n for n, _ in env])
             if k == "at":
@@ -207,7 +220,12 @@ class Gen:
         if ty[0] == "arr":
             if d <= 0:
                 return var_or(("array", []))
-            k = r.choice(["v", "lit", "lit", "add", "if"])
+            k = r.choice(["v", "lit", "lit", "add", "if", "slice", "repeat"])
+            if k == "slice":
+                return self.fix(("slice", sub(ty), sub(INT) if r.random() < 0.6 else None, sub(INT) if r.random() < 0.5 else None,
+                                 sub(INT) if r.random() < 0.4 else None), [n for n, _ in env])
+            if k == "repeat":
+                return self.fix(("repeat", sub(ty[1]), sub(INT)), [n for n, _ in env])
             if k == "lit":
                 return ("array", [sub(ty[1]) for _ in range(r.randint(0, 3))])
             if k == "add":
